@@ -201,6 +201,7 @@ static void ptg_dump_events(int64_t cap)
 
 /* ------------------------------------------------------------------ watchdog */
 static int ptg_timeout_ms = 20000, ptg_init_timeout_ms = 120000;
+static int64_t ptg_max_events = 100000;   /* PTG_MAX_EVENTS: more logged events than this = runaway program, reported as a hang */
 static parsec_taskpool_t *ptg_tp; static ptg_initial_fn ptg_ini; static const char *ptg_keyfile;
 static void ptg_probe_keys(parsec_taskpool_t *tp, const char *file);
 static volatile int ptg_done;
@@ -218,7 +219,7 @@ static void *ptg_watchdog(void *arg)
         usleep(10000);
         int64_t now = ptg_stamp;
         if (now != last) { last = now; idle = 0; } else idle += 10;
-        if (now >= ptg_log_cap) break;          /* runaway program */
+        if (now >= ptg_max_events) break;       /* runaway program (e.g. a startup loop that never terminates) */
     }
     if (!ptg_done) {
         int64_t n = ptg_stamp, b = 0, e = 0;
@@ -281,6 +282,7 @@ int ptg_rt_main(int argc, char **argv, int nglobals, ptg_make_fn mk, ptg_initial
     }
     (void)nglobals;
     if (getenv("PTG_TIMEOUT_MS")) ptg_timeout_ms = atoi(getenv("PTG_TIMEOUT_MS"));
+    if (getenv("PTG_MAX_EVENTS")) ptg_max_events = atoll(getenv("PTG_MAX_EVENTS"));
     if (getenv("PTG_INIT_TIMEOUT_MS")) ptg_init_timeout_ms = atoi(getenv("PTG_INIT_TIMEOUT_MS"));
     if (getenv("PTG_BODY") && !strcmp(getenv("PTG_BODY"), "spin")) ptg_body_spin = 1;
 #if defined(PARSEC_HAVE_MPI)
